@@ -64,6 +64,7 @@ DoCall ==
                       /\ Book(run2.sh) = Book(post2) /\ LiveOrder(run2.sh) = LiveOrder(post2)
          v11 == IF lock THEN C11Verdict(fk, r, Line.r2, explained) ELSE {}
          extra == (IF ApiOk(Line.st) THEN {} ELSE {"C01"})
+                  \cup (IF ListOk(Line.st) THEN {} ELSE {"C10"})
                   \cup (IF r.t = "panic" THEN {"PANIC"} ELSE {})
                   \cup (IF r.t = "hang" /\ c.op # "match" THEN {"HANG"} ELSE {})
                   \cup (v11 \cap {"C11"})
@@ -92,7 +93,7 @@ DoRestore ==
   /\ LET good == /\ Line.ok
                  /\ ObsOf(Line.st) = ob                       \* building the copy did not disturb the original (purity)
                  /\ RestoredOk(ob, Line.price2, ObsOf(Line.st2), <<>>)
-                 /\ ApiOk(Line.st2)
+                 /\ ApiOk(Line.st2) /\ ListOk(Line.st2)
      IN /\ sum' = AddFails([sum EXCEPT !.restores = @ + 1], IF good THEN {} ELSE {Fail("C10", l)})
         /\ IF Line.k = "fork" /\ Line.ok
            THEN LET o2 == ObsOf(Line.st2) IN
